@@ -182,6 +182,10 @@ def plan(tier, seed):
     for name, prog, only in layout.focus_programs():
         for sh in range(b["shards"]):
             tasks.append(("lay", tier, "F/" + name, sh, b["shards"]))
+    # fixed-form renderings (model R, fixed renderer) of the focus programs
+    for name, prog, only in layout.focus_programs():
+        for sh in range(4):
+            tasks.append(("fix", tier, "F/" + name, sh, 4))
     return tasks
 
 
@@ -260,6 +264,57 @@ def run_lay(task):
     return res
 
 
+def judge_fixed(lay):
+    out = []
+    for ic in (True, False):
+        try:
+            r, items = stream.read_all(lay.text, ignore_comments=ic)
+        except BaseException as e:
+            out.append(("raises:" + type(e).__name__, repr(e)[:200]))
+            continue
+        if r.format.mode != "fix":
+            return "not-fixed", []  # source-form detection is C05's subject
+        k, d = stream.check_items(lay, items, ic)
+        if k:
+            out.append(("ic%d:%s" % (ic, k), d))
+    return "ok", out
+
+
+def fix_sig(kind, feats):
+    return "C12|fixed-stream:%s|%s" % (kind, ",".join(sorted(feats)) or "canonical")
+
+
+def run_fix(task):
+    _, tier, pid, shard, nshards = task
+    res = Result()
+    name, prog, only = [f for f in layout.focus_programs() if "F/" + f[0] == pid][0]
+    kk = 2 if tier == "quick" else 3
+    stats = {}
+    n = 0
+    for vec, ch, lay in explore.explore(lambda ch: layout.render_fixed(prog, ch, {"only": only}), kk, stats):
+        n += 1
+        if n % nshards != shard:
+            continue
+        res.evals += 1
+        hk = h64(lay.text, "fix")
+        res.states.add(hk)
+        if vec:
+            res.nontrivial.add(hk)
+        st, vs = judge_fixed(lay)
+        if st != "ok":
+            res.counters["fixed_rendering_not_detected_as_fixed"] += 1
+            continue
+        res.outcomes["fixed:" + ("ok" if not vs else vs[0][0])] += 1
+        res.results.add(hk)
+        for kind, d in vs:
+            res.violation(fix_sig(kind, lay.features), "%s fixed form vec=%s\n%s\n--- layout:\n%s" % (pid, list(vec), d, lay.text), {"mode": "fix", "tier": tier, "pid": pid, "vec": list(vec)}, cost=len(vec) * 100000 + len(lay.text))
+        if res.evals % 500 == 1:
+            res.sample({"program": pid, "vector": list(vec), "fixed_layout": lay.text})
+    if shard == 0:
+        res.transitions += stats.get("decisions", 0)
+    return res
+
+
 def _lay_setup(tier, pid):
     if pid.startswith("F/"):
         name, prog, only = [f for f in layout.focus_programs() if "F/" + f[0] == pid][0]
@@ -269,6 +324,8 @@ def _lay_setup(tier, pid):
 
 
 def run(task):
+    if task[0] == "fix":
+        return run_fix(task)
     return run_ops(task) if task[0] == "ops" else run_lay(task)
 
 
@@ -285,6 +342,10 @@ def replay(case):
         finally:
             shutil.rmtree(tmp, ignore_errors=True)
         return [{"sig": "C12|ops:%s|%s|ic=%s" % (v[0], case["name"], case["ic"]), "detail": v[1]}] if v else []
+    if case["mode"] == "fix":
+        name, prog, only = [f for f in layout.focus_programs() if "F/" + f[0] == case["pid"]][0]
+        ch, lay = explore.run(lambda ch: layout.render_fixed(prog, ch, {"only": only}), case["vec"])
+        return [{"sig": fix_sig(k, lay.features), "detail": d} for k, d in judge_fixed(lay)[1]]
     prog, opts, kk = _lay_setup(case["tier"], case["pid"])
     ch, lay = explore.run(lambda ch: layout.render_free(prog, ch, opts), case["vec"])
     return [{"sig": lay_sig(k, lay.features), "detail": d} for k, d in judge_layout(lay)]
